@@ -32,6 +32,7 @@ ATTACH = {
     "virtiofs": ("src/transport/virtiofs/mod.rs", "src/transport/virtiofs"),
     "server": ("src/api/server/mod.rs", "src/api/server"),
     "srvsync": ("src/api/server/sync_io.rs", "src/api/server/sync_io"),
+    "srvasync": ("src/api/server/async_io.rs", "src/api/server/async_io"),
     "vfs": ("src/api/vfs/mod.rs", "src/api/vfs"),
     "pseudo": ("src/api/pseudo_fs.rs", "src/api/pseudo_fs"),
     "pt": ("src/passthrough/mod.rs", "src/passthrough"),
